@@ -613,6 +613,184 @@ Section AtBrace.
   Qed.
 End AtBrace.
 
+
+(* ---- #include <path>: every other alternative fails at the character `#` ---- *)
+Definition kinclude : chars := chars_of "#include".
+Lemma ty_fails_at_hash : forall f p X, interp g (12 + f) TY {| pk := p; rest := sp kinclude X |} = Fail.
+Proof.
+  intros f p X. cbn [Nat.add]. unfold TY. rewrite i_or. cbn [alt_longest].
+  rewrite (i_ref _ _ "Type" TYPE_BODY lookup_Type). unfold TYPE_BODY. rewrite i_and, seq_cons, i_and, seq_cons.
+  unfold CONST_OPT. rewrite i_opt, i_name. unfold kinclude. change (chars_of "#include") with ("#"%char :: chars_of "include").
+  rewrite (kw_fail_first _ p "const" "#"%char (chars_of "include") X eq_refl eq_refl). rewrite seq_cons.
+  unfold CHOICE. rewrite i_first. cbn [alt_first]. rewrite i_name, (i_ref _ _ "BasicType" BASIC_BODY lookup_BasicType).
+  unfold BASIC_BODY. rewrite i_or. cbn [alt_longest].
+  rewrite !(kw_fail_first _ p _ "#"%char (chars_of "include") X eq_refl) by reflexivity.
+  rewrite i_name, (i_ref _ _ "CustomType" TN_BODY lookup_CustomType). unfold TN_BODY. rewrite i_and, seq_cons.
+  rewrite (IDENT_fail _ p "#"%char (chars_of "include") X eq_refl eq_refl eq_refl).
+  rewrite (i_ref _ _ "TemplatedType" TT_BODY lookup_TemplatedType). unfold TT_BODY.
+  rewrite i_and, seq_cons, i_and, seq_cons, i_and, seq_cons. unfold CONST_OPT. rewrite i_opt, i_name.
+  rewrite (kw_fail_first _ p "const" "#"%char (chars_of "include") X eq_refl eq_refl). rewrite seq_cons.
+  rewrite i_name, (i_ref _ _ "Typename" TN_BODY lookup_Typename). unfold TN_BODY. rewrite i_and, seq_cons.
+  rewrite (IDENT_fail _ p "#"%char (chars_of "include") X eq_refl eq_refl eq_refl). reflexivity.
+Qed.
+
+
+Section AtHash.
+  Variables (p : bool) (X : chars).
+  Let st : pst := {| pk := p; rest := sp kinclude X |}.
+
+  Lemma kwb_h : forall f (k : string), match chars_of k with d :: _ => ceq d "#"%char = false | [] => False end ->
+    interp g (S f) (GTerm (TKw k)) st = Fail.
+  Proof. intros f k H. apply (kw_fail_first f p k "#"%char (chars_of "include") X eq_refl H). Qed.
+
+  Lemma fwd_b_h : forall f, interp g (23 + f) (GRef "ForwardDeclaration") st = Fail.
+  Proof.
+    intros f. cbn [Nat.add]. rule "ForwardDeclaration"%string.
+    rewrite i_and, seq_cons, i_and, seq_cons, i_and, seq_cons, i_and, seq_cons, i_opt, i_name.
+    rewrite (kwb_h _ "virtual" eq_refl). rewrite seq_cons. rewrite (kwb_h _ "class" eq_refl). reflexivity.
+  Qed.
+  Lemma template_opt_b_h : forall f, interp g (7 + f) TEMPLATE_OPT st = Match [] st.
+  Proof.
+    intros f. cbn [Nat.add]. unfold TEMPLATE_OPT. rewrite i_opt, i_name, (i_ref _ _ "Template" TEMPLATE_BODY lookup_Template).
+    unfold TEMPLATE_BODY. rewrite i_and, seq_cons, i_and, seq_cons, i_and, seq_cons. rewrite (kwb_h _ "template" eq_refl). reflexivity.
+  Qed.
+  Lemma class_b_h : forall f, interp g (24 + f) (GRef "Class") st = Fail.
+  Proof.
+    intros f. cbn [Nat.add]. rule "Class"%string.
+    rewrite i_and, seq_cons, i_and, seq_cons, i_and, seq_cons, i_and, seq_cons, i_and, seq_cons, i_and, seq_cons, i_and, seq_cons,
+            i_and, seq_cons.
+    pose proof (template_opt_b_h (8 + f)) as T. unfold TEMPLATE_OPT in T. cbn [Nat.add] in T. rewrite T. clear T.
+    rewrite seq_cons, i_opt, i_name. rewrite (kwb_h _ "virtual" eq_refl).
+    cbn [app]. rewrite ?seq_nil. cbn [app]. rewrite ?seq_cons. rewrite (kwb_h _ "class" eq_refl). reflexivity.
+  Qed.
+  Lemma typedef_b_h : forall f, interp g (25 + f) (GRef "TypedefTemplateInstantiation") st = Fail.
+  Proof.
+    intros f. cbn [Nat.add]. rule "TypedefTemplateInstantiation"%string. rewrite i_and, seq_cons, i_and, seq_cons, i_and, seq_cons.
+    rewrite (kwb_h _ "typedef" eq_refl). reflexivity.
+  Qed.
+  Lemma fn_b_h : forall f, interp g (26 + f) (GRef "GlobalFunction") st = Fail.
+  Proof.
+    intros f. cbn [Nat.add]. rewrite (i_ref _ _ "GlobalFunction" FN_BODY lookup_GlobalFunction). unfold FN_BODY.
+    rewrite i_and, seq_cons, i_and, seq_cons, i_and, seq_cons, i_and, seq_cons, i_and, seq_cons, i_and, seq_cons.
+    pose proof (template_opt_b_h (12 + f)) as T. cbn [Nat.add] in T. rewrite T. clear T. cbn [app]. rewrite seq_cons, i_name.
+    rewrite (i_ref _ _ "ReturnType" RT_BODY lookup_ReturnType). unfold RT_BODY. rewrite i_or. cbn [alt_longest].
+    unfold PAIR_AND. rewrite i_and, seq_cons, i_and, seq_cons, i_and, seq_cons, i_and, seq_cons, i_and, seq_cons, i_and, seq_cons, i_sup, i_opt, i_term.
+    pose proof (lit_fail p (chars_of "std::") "#"%char (chars_of "include") X eq_refl eq_refl) as L. change (string_of (chars_of "std::")) with "std::"%string in L.
+    change (run_term (TLit "std::") st = Fail) in L. rewrite L. clear L. rewrite seq_cons, i_sup. rewrite (kwb_h _ "pair" eq_refl).
+    rewrite i_name. pose proof (ty_fails_at_hash (3 + f) p X) as E. cbn [Nat.add] in E.
+    change (interp g (S (S (S (S (S (S (S (S (S (S (S (S (S (S (S f))))))))))))))) TY st = Fail) in E. rewrite E. reflexivity.
+  Qed.
+  Lemma enum_b_h : forall f, interp g (27 + f) (GRef "Enum") st = Fail.
+  Proof.
+    intros f. cbn [Nat.add]. rule "Enum"%string.
+    rewrite i_and, seq_cons, i_and, seq_cons, i_and, seq_cons, i_and, seq_cons, i_and, seq_cons, i_or.
+    cbn [alt_longest]. rewrite i_or. cbn [alt_longest].
+    rewrite (kwb_h _ "enum" eq_refl), (kwb_h _ "enum class" eq_refl), (kwb_h _ "enum struct" eq_refl). reflexivity.
+  Qed.
+  Lemma var_b_h : forall f, interp g (28 + f) (GRef "Variable") st = Fail.
+  Proof.
+    intros f. cbn [Nat.add]. rule "Variable"%string. rewrite i_and, seq_cons, i_and, seq_cons, i_and, seq_cons, i_name.
+    pose proof (ty_fails_at_hash (11 + f) p X) as E. cbn [Nat.add] in E. unfold TY in E.
+    match type of E with interp g ?F ?e _ = Fail => change (interp g F e st = Fail) in E end. rewrite E. reflexivity.
+  Qed.
+  Lemma ns_b_h : forall f, interp g (29 + f) (GRef "Namespace") st = Fail.
+  Proof.
+    intros f. cbn [Nat.add]. rule "Namespace"%string. rewrite i_and, seq_cons, i_and, seq_cons, i_and, seq_cons, i_and, seq_cons.
+    rewrite (kwb_h _ "namespace" eq_refl). reflexivity.
+  Qed.
+
+End AtHash.
+
+Definition inc_tok (path : chars) : chars := "<"%char :: path ++ [">"%char].
+Definition inc_toks (h : string) : list chars := [kinclude; inc_tok (chars_of h)].
+Definition not_gt (x : ascii) : bool := negb (cmem x (chars_of ">")).
+Definition path_ok_c (path : chars) : Prop :=
+  match path with c :: _ => solid c = true | [] => False end /\ forallb not_gt path = true /\ Forall (fun x => code x <> 9) path.
+Definition inc_value (path : chars) : value :=
+  VNode "Include" [([], VStr "#include"); (["header"%string], VStr (string_of path))].
+
+Lemma skip_ign_solid : forall n c t, solid c = true -> skip_ignorables n (c :: t) = c :: t.
+Proof.
+  intros n c t H. pose proof (solid_no_filler c t H) as F. apply filler_start_false in F. destruct F as [W C].
+  destruct n as [|n]; [reflexivity|]. cbn [skip_ignorables skip_ws]. rewrite W, C. reflexivity.
+Qed.
+Lemma moved_same : forall st, moved st (rest st) = st.
+Proof. intros st. unfold moved. rewrite Nat.ltb_irrefl. reflexivity. Qed.
+Lemma lit_now : forall q c r, solid c = true ->
+  exists q', run_term (TLit (String c EmptyString)) {| pk := q; rest := c :: r |} = Match [([], VStr (String c EmptyString))] {| pk := q'; rest := r |}.
+Proof.
+  intros q c r H. unfold run_term. cbn [pre_term]. unfold pre. cbn [rest].
+  rewrite (skip_filler_id (c :: r) (solid_no_filler c r H)).
+  change (moved {| pk := q; rest := c :: r |} (c :: r)) with (moved {| pk := q; rest := c :: r |} (rest {| pk := q; rest := c :: r |})).
+  rewrite moved_same. cbn [rest chars_of prefix]. change (chars_of (String c EmptyString)) with [c].
+  cbn [prefix]. unfold ceq. rewrite Ascii.eqb_refl. eexists. reflexivity.
+Qed.
+
+Lemma moved_same' : forall q s, moved {| pk := q; rest := s |} s = {| pk := q; rest := s |}.
+Proof. intros q s. unfold moved. cbn [rest]. rewrite Nat.ltb_irrefl. reflexivity. Qed.
+
+Lemma notin_ok : forall q c t R, solid c = true -> forallb not_gt (c :: t) = true ->
+  exists q', run_term (TNotIn ">") {| pk := q; rest := (c :: t) ++ ">"%char :: R |}
+             = Match [([], VStr (string_of (c :: t)))] {| pk := q'; rest := ">"%char :: R |}.
+Proof.
+  intros q c t R H1 H2. unfold run_term. cbn [pre_term rest app].
+  rewrite (skip_ign_solid _ c (t ++ ">"%char :: R) H1), moved_same'. cbn [rest].
+  change (fun x : ascii => negb (cmem x (chars_of ">"))) with not_gt.
+  change (c :: t ++ ">"%char :: R) with ((c :: t) ++ ">"%char :: R).
+  rewrite (span_word not_gt (c :: t) (">"%char :: R) H2) by (right; exists ">"%char, R; split; reflexivity).
+  assert (LT : Nat.ltb (length (">"%char :: R)) (length ((c :: t) ++ ">"%char :: R)) = true).
+  { apply Nat.ltb_lt. rewrite app_length. cbn [length]. lia. }
+  rewrite LT, (firstn_exact _ (c :: t) (">"%char :: R)). eexists. reflexivity.
+Qed.
+
+Lemma include_ok : forall f p path R, path_ok_c path ->
+  exists p', interp g (6 + f) (GRef "Include") {| pk := p; rest := sp kinclude (sp (inc_tok path) R) |}
+             = Match [([], inc_value path)] {| pk := p'; rest := R |}.
+Proof.
+  intros f p path R [H1 [H2 _]]. destruct path as [|c t]; [contradiction|]. cbn [Nat.add]. rule "Include"%string.
+  rewrite i_and, seq_cons, i_and, seq_cons, i_and, seq_cons, i_term.
+  assert (Bd : boundary (sp (inc_tok (c :: t)) R)) by (right; eexists; reflexivity).
+  destruct (kw_self p "#"%char (chars_of "include") (sp (inc_tok (c :: t)) R) eq_refl Bd) as [p1 E1].
+  change (string_of ("#"%char :: chars_of "include")) with "#include"%string in E1.
+  change (sp ("#"%char :: chars_of "include") (sp (inc_tok (c :: t)) R)) with (sp kinclude (sp (inc_tok (c :: t)) R)) in E1. rewrite E1. cbn [app].
+  rewrite seq_cons, i_sup.
+  set (BODY := (c :: t) ++ ">"%char :: R).
+  assert (EB : sp (inc_tok (c :: t)) R = sp ["<"%char] BODY).
+  { unfold sp, inc_tok, BODY. cbn [app]. rewrite <- app_assoc. reflexivity. }
+  rewrite EB. destruct (lit1_at f p1 "<"%char BODY eq_refl) as [p2 E2]. rewrite E2, seq_nil. cbn [app].
+  rewrite seq_cons, i_name, i_term. unfold BODY.
+  destruct (notin_ok p2 c t R H1 H2) as [p3 E3]. rewrite E3.
+  cbn [map add_name fst snd]. rewrite seq_nil. cbn [app]. rewrite seq_cons, i_sup, i_term.
+  destruct (lit_now p3 ">"%char R eq_refl) as [p4 E4]. rewrite E4, seq_nil. cbn [app]. exists p4. reflexivity.
+Qed.
+
+Lemma b_decl_include : forall k path, b_decl (S k) (inc_value path) = Ok (DInclude (string_of path)).
+Proof. intros k path. reflexivity. Qed.
+
+Lemma content_step_inc : forall h, path_ok_c (chars_of h) -> forall p R f, 40 <= f ->
+  exists v p', interp g f OR7 {| pk := p; rest := render (inc_toks h) R |} = Match [([], v)] {| pk := p'; rest := R |}
+               /\ forall k, b_decl (S k) v = Ok (DInclude h).
+Proof.
+  intros h Hp p R f Hf. replace f with (30 + (f - 30)) by lia. set (z := f - 30).
+  unfold inc_toks. change (render [kinclude; inc_tok (chars_of h)] R) with (sp kinclude (sp (inc_tok (chars_of h)) R)).
+  set (X := sp (inc_tok (chars_of h)) R).
+  destruct (include_ok (17 + z) p (chars_of h) R Hp) as [p' E]. fold X in E.
+  exists (inc_value (chars_of h)), p'. split; [|intros k; rewrite b_decl_include, string_chars; reflexivity].
+  assert (E1 : interp g (24 + z) OR1 {| pk := p; rest := sp kinclude X |} = Match [([], inc_value (chars_of h))] {| pk := p'; rest := R |}).
+  { unfold OR1. change (24 + z) with (S (23 + z)). rewrite or2_r; [exact E | apply fwd_b_h]. }
+  assert (E2 : interp g (25 + z) OR2 {| pk := p; rest := sp kinclude X |} = Match [([], inc_value (chars_of h))] {| pk := p'; rest := R |})
+    by (unfold OR2; change (25 + z) with (S (24 + z)); apply or2_l; [exact E1 | apply class_b_h]).
+  assert (E3 : interp g (26 + z) OR3 {| pk := p; rest := sp kinclude X |} = Match [([], inc_value (chars_of h))] {| pk := p'; rest := R |})
+    by (unfold OR3; change (26 + z) with (S (25 + z)); apply or2_l; [exact E2 | apply typedef_b_h]).
+  assert (E4 : interp g (27 + z) OR4 {| pk := p; rest := sp kinclude X |} = Match [([], inc_value (chars_of h))] {| pk := p'; rest := R |})
+    by (unfold OR4; change (27 + z) with (S (26 + z)); apply or2_l; [exact E3 | apply fn_b_h]).
+  assert (E5 : interp g (28 + z) OR5 {| pk := p; rest := sp kinclude X |} = Match [([], inc_value (chars_of h))] {| pk := p'; rest := R |})
+    by (unfold OR5; change (28 + z) with (S (27 + z)); apply or2_l; [exact E4 | apply enum_b_h]).
+  assert (E6 : interp g (29 + z) OR6 {| pk := p; rest := sp kinclude X |} = Match [([], inc_value (chars_of h))] {| pk := p'; rest := R |})
+    by (unfold OR6; change (29 + z) with (S (28 + z)); apply or2_l; [exact E5 | apply var_b_h]).
+  unfold OR7. change (30 + z) with (S (29 + z)). apply or2_l; [exact E6 | apply ns_b_h].
+Qed.
+
 Definition stops (R : chars) : Prop := forall p f, 30 <= f -> interp g f OR7 {| pk := p; rest := R |} = Fail.
 
 Lemma end_fails : forall p f, 30 <= f -> interp g f OR7 {| pk := p; rest := [] |} = Fail.
@@ -695,6 +873,7 @@ Inductive item : Type :=
 | IFn (x : fn)
 | IVar (t : ty) (name : string)
 | IFwd (virt : bool) (name : string)
+| IInc (header : string)
 | INs (name : string) (body : list item).
 
 Fixpoint itoks (i : item) : list chars :=
@@ -702,6 +881,7 @@ Fixpoint itoks (i : item) : list chars :=
   | IFn x => toks_of x
   | IVar t n => var_toks t n
   | IFwd v n => fwd_toks v n
+  | IInc h => inc_toks h
   | INs n b => [knamespace; chars_of n; lbrace] ++ flat_map itoks b ++ [rbrace]
   end.
 Definition items_toks (l : list item) : list chars := flat_map itoks l.
@@ -710,15 +890,17 @@ Fixpoint idecl (i : item) : decl :=
   | IFn x => decl_of x
   | IVar t n => DVar {| v_ty := t; v_name := n; v_default := None |}
   | IFwd v n => fwd_decl v n
+  | IInc h => DInclude h
   | INs n b => DNamespace n (map idecl b)
   end.
 Fixpoint idepth (i : item) : nat :=
-  match i with IFn _ => 0 | IVar _ _ => 0 | IFwd _ _ => 0 | INs _ b => S (fold_right (fun x acc => Nat.max (idepth x) acc) 0 b) end.
+  match i with IFn _ => 0 | IVar _ _ => 0 | IFwd _ _ => 0 | IInc _ => 0 | INs _ b => S (fold_right (fun x acc => Nat.max (idepth x) acc) 0 b) end.
 Fixpoint wf_item (i : item) : Prop :=
   match i with
   | IFn x => wf_fn x
   | IVar t n => wf_var t n
   | IFwd _ n => is_ident (chars_of n) = true
+  | IInc h => path_ok_c (chars_of h)
   | INs n b => is_ident (chars_of n) = true /\ (fix all (l : list item) : Prop := match l with [] => True | x :: r => wf_item x /\ all r end) b
   end.
 Fixpoint need (i : item) : nat :=
@@ -726,6 +908,7 @@ Fixpoint need (i : item) : nat :=
   | IFn x => fuel_fn x + 25
   | IVar t _ => fuel_of t + 25
   | IFwd _ _ => 40
+  | IInc _ => 40
   | INs _ b => 37 + length b + fold_right (fun x acc => need x + acc) 0 b
   end.
 Definition needs (l : list item) : nat := 31 + length l + fold_right (fun x acc => need x + acc) 0 l.
@@ -773,12 +956,14 @@ Proof.
       set (REST := render (items_toks items) R) in *.
       assert (Step : exists v p1, interp g F OR7 {| pk := p; rest := render (itoks i) REST |} = Match [([], v)] {| pk := p1; rest := REST |}
                                   /\ forall bf, S n <= bf -> b_decl bf v = Ok (idecl i)).
-      { destruct i as [x|t nm|vt nm|nm b].
+      { destruct i as [x|t nm|vt nm|hd|nm b].
         - cbn [wf_item itoks idecl need] in *. destruct (content_step x Hwi p REST F ltac:(lia)) as [v [p1 [E B]]].
           exists v, p1. split; [exact E|]. intros bf Hbf. destruct bf as [|bf]; [lia|]. apply B.
         - cbn [wf_item itoks idecl need] in *. destruct (content_step_var t nm Hwi p REST F ltac:(lia)) as [v [p1 [E B]]].
           exists v, p1. split; [exact E|]. intros bf Hbf. destruct bf as [|bf]; [lia|]. apply B.
         - cbn [wf_item itoks idecl need] in *. destruct (content_step_fwd vt nm Hwi p REST F ltac:(lia)) as [v [p1 [E B]]].
+          exists v, p1. split; [exact E|]. intros bf Hbf. destruct bf as [|bf]; [lia|]. apply B.
+        - cbn [wf_item itoks idecl need] in *. destruct (content_step_inc hd Hwi p REST F ltac:(lia)) as [v [p1 [E B]]].
           exists v, p1. split; [exact E|]. intros bf Hbf. destruct bf as [|bf]; [lia|]. apply B.
         - cbn [wf_item itoks idecl need idepth] in *. destruct Hwi as [Hnm Hall].
           assert (Hb : forall j, In j b -> idepth j < n /\ wf_item j).
@@ -941,7 +1126,7 @@ Qed.
 
 Lemma item_facts : forall n i, idepth i < n -> wf_item i -> Forall tok_ok (itoks i) /\ need i + 1 <= 32 * length (itoks i).
 Proof.
-  induction n as [|n IH]; intros i Hd Hw; [lia|]. destruct i as [x|t nm|vt nm|nm b].
+  induction n as [|n IH]; intros i Hd Hw; [lia|]. destruct i as [x|t nm|vt nm|hd|nm b].
   - cbn [wf_item itoks need] in *. destruct (fn_facts x Hw) as [F1 [F2 F3]]. split; [exact F1 | lia].
   - cbn [wf_item itoks need] in *. destruct Hw as [Hw [Hdt [_ Hn]]]. destruct (ty_facts _ _ Hdt Hw) as [T1 T2]. unfold var_toks. split.
     + apply Forall_app. split; [exact T1|]. constructor; [apply ident_tok; exact Hn | tok_lit].
@@ -949,6 +1134,10 @@ Proof.
   - cbn [wf_item itoks need] in *. unfold fwd_toks. split.
     + apply Forall_app. split; [destruct vt; cbn [virt_toks]; tok_lit|]. constructor; [tok_lit|]. constructor; [apply ident_tok; exact Hw | tok_lit].
     + rewrite app_length. cbn [length]. lia.
+  - cbn [wf_item itoks need] in *. destruct Hw as [_ [_ Hnt]]. unfold inc_toks. split.
+    + constructor; [tok_lit|]. constructor; [|constructor]. unfold inc_tok, tok_ok. constructor; [vm_compute; discriminate|].
+      apply Forall_app. split; [exact Hnt | tok_lit].
+    + cbn [length]. lia.
   - cbn [wf_item itoks need idepth] in *. destruct Hw as [Hnm Hall].
     assert (Hb : forall j, In j b -> Forall tok_ok (itoks j) /\ need j + 1 <= 32 * length (itoks j)).
     { intros j Hj. apply IH; [pose proof (idepth_ge b j Hj); lia | apply (wf_items_all b Hall j Hj)]. }
